@@ -191,7 +191,7 @@ def write_evidence(
         "wall_s": round(wall_s, 2),
         "violations": violations,
     }
-    path = os.path.join(rt.VERIF_ROOT, "evidence", "%s.json" % check_id)
+    path = os.path.join(os.environ.get("VERIF_EVIDENCE_DIR") or os.path.join(rt.VERIF_ROOT, "evidence"), "%s.json" % check_id)
     os.makedirs(os.path.dirname(path), exist_ok=True)
     tmp = path + ".tmp"
     with open(tmp, "w") as f:
